@@ -112,8 +112,10 @@ int main(int argc, char *argv[]) {
         if (cores == 0) {
             cores = boost::thread::hardware_concurrency();
         }
-        if (vm["verbose"].as<bool>() && vm["parallel"].as<bool>()) {
-            std::cout << "Using cores: " << cores << std::endl;
+        if (vm["parallel"].as<bool>()) {
+            if (vm["verbose"].as<bool>()) {
+                std::cout << "Using cores: " << cores << std::endl;
+            }
             parmcb::set_global_tbb_concurrency(cores);
         }
     }
